@@ -79,6 +79,22 @@ def step (st : St) (line : String) : St × String :=
       if st.c.s.dead then (st, "refused") -- the connection was stopped on this side: Send returns false
       else ({ st with c := st.c.step L (.send t m) }, "ok " ++ toString (packetsOf L t m).length)
     | _, _, _ => (st, "bad-op")
+  | ["dial", mode] =>
+    -- node-level scenario `dial-attribution`: A dials B (authenticated identity B = 2) with the right key,
+    -- a wrong key (9) or no key, strict or not; what A records and tags B's messages with
+    let r : Option (Option Nat) := match mode with
+      | "right-strict" => some (recordedIdentity 2 (some 2) true true)
+      | "right-loose" => some (recordedIdentity 2 (some 2) true false)
+      | "wrong-strict" => some (recordedIdentity 2 (some 9) true true)
+      | "wrong-loose" => some (recordedIdentity 2 (some 9) true false)
+      | "nokey-strict" => some (recordedIdentity 2 none true true)
+      | "nokey-loose" => some (recordedIdentity 2 none true false)
+      | _ => none
+    let name (k : Nat) : String := if k = 2 then "B" else if k = 9 then "W" else "?"
+    (st, match r with
+      | none => "bad-op"
+      | some none => "refused"
+      | some (some k) => "ok sender=" ++ name k ++ " registered=" ++ name k)
   | ["send-tagged", t, kind, idx] =>
     -- scenario `concurrent-small-and-large-same-topic`: kind 0 = one-packet message #idx of sender F,
     -- kind 1 = three-packet message #idx of sender L (payloads as in harness/c18/interleave.go)
